@@ -13,7 +13,8 @@ Init == g \in GraphFamily(Family, RndN, RndK) /\ phase = "chosen"
 Line(G) ==
   IF Mode = "tian"
   THEN [g |-> [n |-> G.n, d |-> G.d, b |-> G.b],
-        qs |-> {<<p[1], p[2], o, TIdent(G, p[2], p[1])>> : p \in TianPairs(G), o \in TopoOrders(G)}]
+        \* 5th field: V \ T is ancestral, so that the conditional probability P(T | V \ T) is another expression for Q[T]
+        qs |-> {<<p[1], p[2], o, TIdent(G, p[2], p[1]), An(G, G.n \ p[1]) = G.n \ p[1]>> : p \in TianPairs(G), o \in TopoOrders(G)}]
   ELSE IF Mode = "trso"
   THEN [g |-> [n |-> G.n, d |-> G.d, b |-> G.b],
         qs |-> {<<p[1], p[2], {}, ~IsFail(IDRef(G, p[1], p[2]))>> : p \in Queries(G)},
